@@ -3187,6 +3187,57 @@ func ruleFloatLit(p *Prog, r *Result) {
 		})
 	}
 	r.floor("numeric literals built by the folder from computed values", nv, 4)
+	// ... and stands where the checker allows it: the checker refuses a literal zero divisor, so the folder does not
+	// put one there (`x / (2 - 2)` stays as written). In the function that folds the operands of a binary node, some
+	// store into the node's Right field lies behind `operator is Div` and a package predicate that compares a
+	// literal's value with zero
+	if fold := p.MethodByName("ExpressionOptimizer", "tryOptimizeBinaryOpExecute"); fold != nil {
+		divOp, okDiv := p.constOf("Div")
+		zeroPred := func(g *ssa.Function) bool {
+			if g == nil || !p.InPkg(g) {
+				return false
+			}
+			found := false
+			allInstrs(g, func(in ssa.Instruction) {
+				if bo, ok := in.(*ssa.BinOp); ok && (bo.Op == token.EQL || bo.Op == token.NEQ) {
+					if _, f, _, ok := loadedField(bo.X); ok && (f == "Int" || f == "Float") {
+						if k, ok := constIntOrFloatZero(bo.Y); ok && k == 0 {
+							found = true
+						}
+					}
+				}
+			})
+			return found
+		}
+		guarded := false
+		allInstrs(fold, func(in ssa.Instruction) {
+			st, ok := in.(*ssa.Store)
+			if !ok {
+				return
+			}
+			o, f, _, ok := fieldOfAddr(st.Addr)
+			if !ok || o == nil || o.Obj().Name() != "BinaryOpExpr" || f != "Right" {
+				return
+			}
+			isDiv, isZero := false, false
+			for _, a := range dominatingAtoms(in.Block()) {
+				if _, f2, _, ok := loadedField(a.X); ok && f2 == "Op" && a.Op == token.EQL {
+					if k, ok := constInt(a.Y); ok && okDiv && k == divOp {
+						isDiv = true
+					}
+				}
+				if c, ok := a.X.(*ssa.Call); ok && zeroPred(c.Call.StaticCallee()) {
+					if bv, isB := constBool(a.Y); isB && ((a.Op == token.EQL) == bv) {
+						isZero = true
+					}
+				}
+			}
+			if isDiv && isZero {
+				guarded = true
+			}
+		})
+		r.add(guarded, p.FName(fold)+"|zero-divisor", p.Pos(fold.Pos()), "a divisor that folds to the literal zero is put back as it was written (the checker refuses `x / 0`, so the folded tree would have no accepted spelling)")
+	}
 }
 
 // constIntOrFloatZero: the constant's value as an integer when it is an integer or an integral float.
